@@ -23,7 +23,7 @@ type CaseC04 struct {
 func init() { register("C04", checkC04) }
 
 func genC04(t *rapid.T) CaseC04 {
-	g := XGen{Opts: defaultOpts(), MixedText: false, Extras: true, Namespaces: true, Wide: true}
+	g := XGen{Opts: defaultOpts(), MixedText: false, Extras: true, Namespaces: true, Wide: true, SeqKeys: true}
 	c := CaseC04{Doc: g.Elem(t, rapid.IntRange(1, 4).Draw(t, "depth"))}
 	blanks := []string{"", " ", "  ", "\t", "    "}
 	c.Prefix = rapid.SampledFrom(blanks).Draw(t, "prefix")
